@@ -264,6 +264,14 @@ def events(f, rename=lambda s: s, significant=None, rewrite=None, pname=None, gu
             name = rename(short if mir.is_local_callee(t) else path)
             if name == "@skip":
                 continue
+            if mir.is_local_callee(t) and short in f.prog.fns:
+                from . import effects as _eff
+
+                g = f.prog.fns[short]
+                if g.has_mir and _eff._pure_single_path(g)[0] and not any(tt["k"] == "call" for tt in (g.term(bb) for bb in g.reachable(False))):
+                    # a pure getter (len, capacity, is_empty, is_full): no event of its own, its
+                    # value is rendered where it is used
+                    continue
             if significant is not None and not significant(name, t):
                 continue
             args = [canon(f.deep_simplify(a), rename, 1, rewrite, pname) for a in f.call_args(b)]
